@@ -409,5 +409,6 @@ func init() {
 		Rule:   "exhaustive over event shapes: kind {add, update, delete, tombstone, tombstone of a non-pod} x owner reference {none, this set, overlapping set, stale UID, other kind, unknown set} (old x new for updates) x label match (old x new) x resourceVersion equal/different x deletionTimestamp x sets present {0, 1, 2 with overlapping selectors}, delivered to the handlers the controller itself registered (captured at AddEventHandler) and observed at the work queue: required ⊆ enqueued ⊆ allowed per a reference model written from the statement; set events: add / delete / tombstone / 9 kinds of update; worker bookkeeping: k in {0,1,2,5,17,24} injected consecutive failures then success through the real processNextWorkItem on a virtual-time queue (NumRequeues counts up, key waits for its back-off, Forget on success); non-trivial = shapes with a required wake-up",
 		Assume: []string{"the work queue is the harness' deterministic virtual-time implementation of workqueue.RateLimitingInterface; the property is about the controller's calls on it", "sets in the cache have valid selectors (a sibling with an unparsable selector makes GetPodStatefulSets fail for every set of the namespace; noted, outside the quantifier)"},
 		Cases:  func(string) int { return 16 }, Run: runC16,
+		Race: runLive("C16"), RaceCases: scenarioCases(16, 160),
 		Floors: []string{"pod_event_shapes", "shapes_with_required_wakeups", "set_event_shapes", "failed_reconciles_through_worker", "successful_reconciles_through_worker"}})
 }
